@@ -25,7 +25,9 @@ EstimatorPairs  == {"Tilt.quaternion", "Tilt.rotmat", "Tilt.angles", "Tilt.acc-o
                     "Complementary.am_estimation", "Complementary.am_estimation.acc-only",
                     \* a non-default weights option (not normalised): the option is honoured the same way on both paths
                     "FLAE.symbolic[weights]", "FLAE.eig[weights]", "FLAE.newton[weights]", "QUEST[weights]", "Davenport[weights]", "OLEQ.NED[weights]"}
-TwinPairs == ConversionPairs \cup MethodPairs \cup MetricPairs \cup EstimatorPairs
+(* helpers of the frames / orientation modules offered for one 3-vector and for N of them *)
+HelperPairs     == {"ned2enu", "enu2ned", "am2angles"}
+TwinPairs == ConversionPairs \cup MethodPairs \cup MetricPairs \cup EstimatorPairs \cup HelperPairs
 
 (* the form the caller's data are in: float arrays of unit-scale values, integer-dtype arrays (raw sensor counts,
    integer-valued quaternions), or non-normalised (scaled) quaternions / measurements *)
@@ -38,7 +40,9 @@ NanPairs == {"rmse"}
 (* "conjugated" / "mirrored": for the two-operand (metric) pairs, the second operand is the conjugate of the first / the first with the
    sign of one component flipped (equal magnitudes component by component, another rotation); one more generic row for the others *)
 RowClasses == {"generic-a", "generic-b", "half-turn", "near-identity", "identity", "near-half-turn", "conjugated", "mirrored"}
-Ns == {1, 2, 5}
+(* 3 and 4 are the row widths of vector and quaternion arrays: an N-by-3 array with N = 3 and an N-by-4 array with N = 4 are square,
+   so any dispatch that looks at a shape (len(x) == 3, x.shape[0] == 4) instead of the number of dimensions is ambiguous exactly there *)
+Ns == {1, 2, 3, 4, 5}
 
 CONSTANTS Pairs, Classes
 VARIABLES op, arr, res, phase
